@@ -8,11 +8,16 @@ use soroban_sdk::{Address, BytesN, Env, IntoVal, String, Val};
 pub fn k(d: &DataKey) -> Val {
     d.into_val(&Env)
 }
+/// the trust set is SEEDED through the storage key and OBSERVED through the public query; the seeding checks that
+/// what it wrote is what the contract reads (otherwise the run is inconclusive, not a violation).  Call for
+/// distinct chains only (a second call for the same chain with `false` would not clear the first).
 pub fn seed_trusted(chain: &String, trusted: bool) {
+    let before = is_trusted(chain);
     model::storage_set_if(trusted, &its(), 1, &k(&DataKey::TrustedChain(chain.clone())), &Val::VOID);
+    kani::assert(is_trusted(chain) == (trusted || before), "MODEL:seeded pre-state is not what the contract reads (storage layout differs from the one this harness seeds)");
 }
 pub fn is_trusted(chain: &String) -> bool {
-    model::storage_has(&its(), 1, &k(&DataKey::TrustedChain(chain.clone())))
+    model::with_contract(&its(), || InterchainTokenService::is_trusted_chain(&Env, chain.clone()))
 }
 pub fn seed_token(id: &BytesN<32>, present: bool, addr: &Address, ty: TokenManagerType) {
     model::storage_set_if(present, &its(), 1, &k(&DataKey::TokenIdConfigKey(id.clone())), &model::val_of(&TokenIdConfigValue { token_address: addr.clone(), token_manager_type: ty }));
